@@ -126,4 +126,25 @@ theorem powi_directed_counterexample :
   rw [e1, e2, bpowQ_eq_zpow]
   norm_num [abs_lt]
 
+/-- a base in `{0, 1, −1}`: `x^k = x^(unitExp k)` for every integer exponent with `|k| ≥ 4` (same sign, same parity) — the
+    reduction the driver uses to decide `powi` of such a base for multi-word exponents -/
+theorem unit_base_zpow_reduce (x : ℚ) (hx : x = 0 ∨ x = 1 ∨ x = -1) (k : ℤ) (hk : 4 ≤ k.natAbs) :
+    x ^ k = x ^ (unitExp k) := by
+  have hu0 : unitExp k ≠ 0 := by
+    unfold unitExp; split <;> omega
+  rcases hx with h | h | h
+  · subst h
+    rw [zero_zpow k (by omega), zero_zpow _ hu0]
+  · subst h; simp
+  · subst h
+    have hpar : Even k ↔ Even (unitExp k) := by
+      unfold unitExp
+      rw [Int.even_iff, Int.even_iff]
+      split <;> omega
+    by_cases he : Even k
+    · rw [Even.neg_one_zpow he, Even.neg_one_zpow (hpar.mp he)]
+    · have ho : Odd k := Int.not_even_iff_odd.mp he
+      have ho' : Odd (unitExp k) := Int.not_even_iff_odd.mp (fun h => he (hpar.mpr h))
+      rw [Odd.neg_one_zpow ho, Odd.neg_one_zpow ho']
+
 end Dashu.Props.C11Powi
